@@ -534,6 +534,10 @@ class KTHierarchyPropagator:
         """
         rhot = DensityMatrixEvolution(timeaxis=self.timeaxis, rhoi=rhoi)
         
+        # every run starts from an empty hierarchy; otherwise the auxiliary
+        # operators left by a previous run leak into this one
+        self.hy.reset_ados()
+        
         if free_hierarchy:
             
             # first act with lifting superoperators
